@@ -296,7 +296,12 @@ static int cmp_sb (const void *a, const void *b)
   return x->n < y->n ? -1 : x->n > y->n;
 }
 
-/* canonical text of a value, same syntax as the input; mapping entries sorted bytewise */
+mapping_node_t *node_find_in_mapping (mapping_t * m, svalue_t * lv);
+int svalue_to_int (svalue_t * v);
+
+/* canonical text of a value, same syntax as the input; mapping entries sorted bytewise.
+ * Every mapping entry is also looked up through its key: an entry no lookup finds is reported as a line
+ * `lookup-miss <key> ..` in front of the line that prints the value. */
 static void pv (sb_t * o, svalue_t * sv, int depth)
 {
   char tmp[64];
@@ -360,6 +365,19 @@ static void pv (sb_t * o, svalue_t * sv, int depth)
               pv (&items[cnt], &n->values[0], depth + 1);
               sb_puts (&items[cnt], ":");
               pv (&items[cnt], &n->values[1], depth + 1);
+              /* the entry must also be FOUND through its key (m[key]): a node linked into the wrong bucket is listed
+                 by keys() / values() / a re-save, but no lookup reaches it */
+              if (node_find_in_mapping (m, &n->values[0]) != n
+                  || i != (svalue_to_int (&n->values[0]) & (int) m->table_size))
+                {
+                  sb_t k = { 0, 0, 0 };
+                  sb_puts (&k, "");
+                  pv (&k, &n->values[0], depth + 1);
+                  fprintf (stderr, "VL lookup-miss %s bucket=%d hash=%d size=%d\n", k.b, i,
+                           svalue_to_int (&n->values[0]) & 0xffff, (int) m->table_size + 1);
+                  fflush (stderr);
+                  free (k.b);
+                }
               cnt++;
             }
         qsort (items, cnt, sizeof (sb_t), cmp_sb);
